@@ -250,6 +250,36 @@ theorem c12_required_scan_witness :
   refine ⟨⟨kItem, [.text [91], .val [97, 98], .text [93], .text [91], .val [99, 100], .text [93]], rfl, by decide,
     by decide, by decide⟩, by decide, by decide, by decide, by decide, by decide, by decide⟩
 
+/-! ## The bindings are the keyword arguments of the call — whatever they are called -/
+
+/-- "…with the given bindings": `synthesize(sequence, **ctx)` / `translate(name, **ctx)` as CALLS.  (a) A context none
+    of whose names is a positionally filled parameter of the entry point reaches the renderer unchanged — every
+    binding, whatever the variable is called (a keyword, a dunder, the name of an option of the constructor…), is data
+    for the template and nothing else; (b) a context with such a name is rejected as a whole (`TypeError` of the call
+    protocol) before anything is rendered: there is no third possibility in which a binding is swallowed or
+    re-interpreted as an option of the call.  `reserved` is probed on the tree under test (pinned tree: `self`,
+    `template`; for `synthesize` also `sequence`); the correspondence runs every variable name that occurs in a
+    signature of the anchored module, Python keywords and dunder names through both entry points. -/
+theorem c12_bindings_reach_context (cfg : Cfg) (reserved : List Str) (ctx : Ctx) (s name : Str) :
+    ((∀ p ∈ ctx, p.1 ∉ reserved) →
+      synthesizeCall cfg reserved ctx s = translate cfg ctx defaultFuel s ∧
+      translateCall cfg reserved ctx name = translateNamed cfg ctx name) ∧
+    ((∃ p ∈ ctx, p.1 ∈ reserved) →
+      synthesizeCall cfg reserved ctx s = .error (.other tyErr) ∧
+      translateCall cfg reserved ctx name = .error (.other tyErr)) := by
+  constructor
+  · intro h
+    have : ctx.any (fun p => reserved.contains p.1) = false := by
+      rw [List.any_eq_false]
+      intro p hp
+      simpa using h p hp
+    simp only [synthesizeCall, translateCall, callEntry, this, Bool.false_eq_true, ↓reduceIte, and_self]
+  · rintro ⟨p, hp, hr⟩
+    have : ctx.any (fun p => reserved.contains p.1) = true := by
+      rw [List.any_eq_true]
+      exact ⟨p, hp, by simpa using hr⟩
+    simp only [synthesizeCall, translateCall, callEntry, this, ↓reduceIte, and_self]
+
 /-! ## String layer = token layer (stretch `c12_str_eq_tok_brace_free`): proved for two of the nine scanners -/
 
 /-- PARTIAL of the stretch goal.  For the last two sub-passes of the variable pass — optional variables
@@ -360,6 +390,17 @@ example : CtxSim eCtx eCtx' ∧ EnvSim eCfg { eCfg with applyF := fun _ _ => .ok
 
 /-- an unregistered include name with a brace-free marker: hypotheses of `c12_unknown_include_marker` -/
 example : lookup [110, 111, 112, 101] eReg = none ∧ noLBb (eCfg.markerPre ++ [110, 111, 112, 101] ++ eCfg.markerSuf) = true := by
+  decide
+
+/-- a variable called `strict` (or `filters`, `class`, `__init__`) is an ordinary binding: hypothesis (a) of
+    `c12_bindings_reach_context` with the pinned reserved names, and `{{strict}}` renders its value; a variable called
+    `template` meets hypothesis (b) -/
+example :
+    let rsv : List Str := [[115, 101, 108, 102], [116, 101, 109, 112, 108, 97, 116, 101]]     -- self, template
+    let strict : Str := [115, 116, 114, 105, 99, 116]
+    (∀ p ∈ ([(strict, ⟨[121], true, none⟩)] : Ctx), p.1 ∉ rsv) ∧
+    (synthesizeCall eCfg rsv [(strict, ⟨[121], true, none⟩)] (tagOf strict)).toOption = some ([121], []) ∧
+    (∃ p ∈ ([([116, 101, 109, 112, 108, 97, 116, 101], ⟨[121], true, none⟩)] : Ctx), p.1 ∈ rsv) := by
   decide
 
 /-- string layer, same data, concrete check (a test, not a theorem): `{{>nope}}` renders as the marker -/
